@@ -103,7 +103,11 @@ fn main() {
                 if std::env::var("RQV_TRACE").is_ok() {
                     println!("about to run #{} {}", k, serde_json::to_string(op).unwrap());
                 }
+                let t0 = std::time::Instant::now();
                 rqv::scene::apply(&mut dt, op);
+                if t0.elapsed().as_millis() > 200 {
+                    println!("SLOW #{} took {} ms: {}", k, t0.elapsed().as_millis(), serde_json::to_string(op).unwrap());
+                }
                 let after = dt.get_data();
                 let ch: Vec<String> = (0..before.len()).filter(|i| before[*i] != after[*i]).take(12).map(|i| format!("({},{}) {:#010x}->{:#010x}", i as i32 % w, i as i32 / w, before[i], after[i])).collect();
                 println!("#{} {} idle={} changed: {}", k, op.kind(), dt.verif_rasterizer_idle(), ch.join(" "));
